@@ -66,8 +66,11 @@ func genLayCase(r *rng.R, id int, base string) *layCase {
 		lc.Existing[p] = filepath.Base(p)
 	}
 	n := 1 + r.Intn(3)
+	// every 10th case pins `output:file @cwd/…` together with a relative -cwd given from the parent directory (and a
+	// converter in a sub-directory)
+	pinCwd := id%10 == 7
 	// a GLOBAL relative output:file (-g): resolved per converter against the directory of ITS declaring file
-	if r.Chance(20) {
+	if r.Chance(20) && !pinCwd {
 		lc.Global = []string{"output:file ./gx/out.go"}
 		n = 2 + r.Intn(2)
 	}
@@ -83,6 +86,9 @@ func genLayCase(r *rng.R, id int, base string) *layCase {
 		kk := r.Intn(8)
 		if len(lc.Global) > 0 {
 			kk = 100
+		}
+		if pinCwd && i == 0 {
+			kk = 6
 		}
 		switch k := kk; {
 		case k == 100:
@@ -154,7 +160,11 @@ func genLayCase(r *rng.R, id int, base string) *layCase {
 		lc.Tree[f] = b.String()
 	}
 	// invocation
-	switch r.Intn(5) {
+	inv := r.Intn(5)
+	if pinCwd {
+		inv = 3
+	}
+	switch inv {
 	case 0:
 		lc.Args = []string{"gen", "./..."}
 	case 1:
